@@ -86,6 +86,9 @@ func init() {
 		if e.Tier == "thorough" {
 			dur = 8 * time.Second
 		}
+		if len(cases) == 1 { // a single scenario is a reproduction: give the interleaving time to occur again (the first wrong verdict ends it)
+			dur = 15 * time.Second
+		}
 		var rs []Result
 		for i := range cases { // one scenario at a time: each one is concurrent in itself
 			rs = append(rs, RunIsolationCase(cases[i], caseID(cases[i], i), e.Seed, dur))
